@@ -6,6 +6,7 @@
 import Frugal.Valid
 import Frugal.Facts
 import Frugal.Generated
+import Frugal.Skeleton
 namespace Frugal.Instances
 open Frugal
 
@@ -35,6 +36,9 @@ theorem facts_recursionDiscipline : Generated.facts.recursionDiscipline = true :
 theorem facts_lockDiscipline : Generated.facts.lockDiscipline = true := by decide
 theorem facts_allocationDiscipline : Generated.facts.allocationDiscipline = true := by decide
 theorem facts_typedAllocation : Generated.facts.typedAllocation = true := by decide
+theorem skeleton_decoder : Generated.facts.decoderSkeleton = Skeleton.decoder := by decide
+theorem skeleton_encoder : Generated.facts.encoderSkeleton = Skeleton.encoder := by decide
+theorem skeleton_resolver : Generated.facts.resolverSkeleton = Skeleton.resolver := by decide
 theorem facts_rollback : Generated.facts.rollbackOnFailedBuild = true := by decide
 theorem facts_buildProtocol : Generated.facts.buildProtocol = true := by decide
 theorem facts_bufferContract : Generated.facts.bufferContract = true := by decide
